@@ -368,7 +368,9 @@ func (f *Frame) applyContract(spec *UnitSpec, name string, c *ssa.CallCommon, si
 			e.calleeGhosts[g.Name] = true
 		}
 		e.lookup = func(e *Env, n string) (TV, bool) {
-			if extra != nil {
+			if strings.HasPrefix(n, "var_") && len(n) > 4 {
+				n = n[4:] // the callee's program variable of that name, not the contract word
+			} else if extra != nil {
 				if tv, ok := extra[n]; ok {
 					return tv, true
 				}
